@@ -94,13 +94,13 @@ def c13(ctx):
 
 # ------------------------------------------------------------------ C15
 SHUF_INV = ["Total", "AcceptImpliesPerm", "Refines", "HonestAccepted", "FamiliesBite", "Designed"]
-OUT_F = ["replaceX", "replaceY", "replace", "rerand", "scal", "dup", "sum", "swapXY", "swapX"]
-PRF_F = ["none", "gen", "mutate", "trunc", "splice", "param", "input"]
+OUT_F = ["replaceX", "replaceY", "oppXY", "oppXYcross", "replace", "rerand", "scal", "dup", "sum", "swapXY", "swapX"]
+PRF_F = ["none", "gen", "ident", "mutate", "trunc", "truncbytes", "trunczero", "splice", "param", "input"]
 SHUF_FAMS = {
-    "pair": OUT_F + PRF_F + ["honestlib", "detach", "kshift", "eqviol", "reprove"],
-    "seq": OUT_F + PRF_F + ["seqperm", "kshift", "eqviol", "reprove"],
+    "pair": OUT_F + PRF_F + ["honestlib", "detach", "kshift", "kshiftX", "eqviol", "reprove"],
+    "seq": OUT_F + PRF_F + ["seqperm", "kshift", "kshiftX", "eqviol", "reprove"],
     "biffle": OUT_F + PRF_F + ["comptamper", "simboth", "reprove"],
-    "simple": ["none", "gen", "replace", "scal", "dup", "sum", "mutate", "trunc", "splice", "param", "eqviol", "reprove"],
+    "simple": ["none", "gen", "ident", "truncbytes", "trunczero", "replace", "scal", "dup", "sum", "mutate", "trunc", "splice", "param", "eqviol", "reprove"],
 }
 
 
